@@ -316,7 +316,7 @@ func c03Spec(r *ev.Run, stream string, idx, mi int) gen.MsgSpec {
 
 func runC03(r *ev.Run, rep *ev.ReplayDoc) ev.Summary {
 	sum := ev.Summary{
-		Rule: "batches of 1-3 seeded messages (C01 shapes, canonical CRLF) sent through Send / DialAndSend / SendWithSMTPClient under single faults enumerated per batch: every content producer failing before/inside/after its data; the transport failing writes at offsets of every class inside each message's DATA phase (first byte, header block, every boundary line, part bodies, closing boundary, terminating dot) taken from a dry run; every reply class {4yz,5yz,drop} at every command position; plus fault pairs (producer x reply, transport x reply) for small batches; every transport fault and the 4yz/drop replies at DATA / end-of-data / RSET are also run with a retry (the undelivered *Msg values are sent again by a new call over a healthy connection: each must be committed once, complete). Oracle compares the reference server's commit log with the complete renderings. non-trivial = a fault was injected; distinct by (batch, fault)",
+		Rule: "batches of 1-3 seeded messages (C01 shapes, canonical CRLF) sent through Send / DialAndSend / SendWithSMTPClient under single faults enumerated per batch: every content producer failing before/inside/after its data; the transport failing writes at offsets of every class inside each message's DATA phase (first byte, header block, every boundary line, part bodies, closing boundary, terminating dot) taken from a dry run; every reply class {4yz,5yz,drop} at every command position; plus fault pairs (producer x reply, transport x reply) for small batches; every transport fault, every producer fault inside or after its data and the 4yz/drop replies at DATA / end-of-data / RSET are also run with a retry (the undelivered *Msg values are sent again by a new call over a healthy connection: each must be committed once, complete). Oracle compares the reference server's commit log with the complete renderings. non-trivial = a fault was injected; distinct by (batch, fault)",
 		Assumptions: []string{
 			"expected renderings are produced by the harness after the call with all producer faults disarmed (rendering is repeatable, C11)",
 			"what counts as committed is what the reference server received between 354 and CRLF.CRLF and acknowledged with 2yz",
@@ -389,6 +389,12 @@ func runC03(r *ev.Run, rep *ev.ReplayDoc) ev.Summary {
 					c.ProdFaults[mi] = map[string]gen.Fault{p: {After: after, ErrKind: []string{"", "eof", "wrapped-eof", "unexpected-eof"}[(mi+after+len(p)+b)%4]}}
 					c.FailClass = fmt.Sprintf("producer-%s-after%d", strings.TrimRight(p, "0123456789"), after)
 					cases = append(cases, c)
+					if after != 0 {
+						// ... and the caller sends the undelivered messages again once the producer works
+						cr := c
+						cr.Resend = true
+						cases = append(cases, cr)
+					}
 					// pair: producer fault x reply deviation at DATA-END / RSET / next MAIL
 					if size <= 2 || r.Thorough() {
 						for pos := 0; pos < dry.steps; pos++ {
